@@ -335,10 +335,7 @@ func runC01_19(c *core.Ctx) {
 		}
 	}
 	if f := getFn(c, "", "conn.Discard"); f != nil {
-		const (
-			fAdv = 1 << iota
-			fRingOnly
-		)
+		const fAdv, fRingOnly = 1, 1 // one fact ("this path has accounted for the window"), so that paths of both kinds may join
 		p := &flow.Problem{Must: true}
 		p.Node = func(b *flow.Block, i int, n ast.Node, in uint64) uint64 {
 			if isAdvance(f, n) {
